@@ -88,6 +88,7 @@ def shards(tier, seed):
 
 
 _POP = []
+_TAP_OK = True   # False when the tapped function no longer exists: a correct result then counts without the confirmation
 
 
 def install_tap():
@@ -95,12 +96,13 @@ def install_tap():
         if exc is None:
             _POP.append(result[1])
 
-    wrap("dateparser.timezone_parser", "pop_tz_offset_from_string", None, after,
+    global _TAP_OK
+    _TAP_OK = wrap("dateparser.timezone_parser", "pop_tz_offset_from_string", None, after,
          name="tap:pop_tz_offset_from_string",
          rebind=[("dateparser.date_parser", "pop_tz_offset_from_string"),
                  ("dateparser.date", "pop_tz_offset_from_string"),
                  ("dateparser.freshness_date_parser", "pop_tz_offset_from_string"),
-                 ("dateparser.languages.locale", "pop_tz_offset_from_string")])
+                 ("dateparser.languages.locale", "pop_tz_offset_from_string")]) is not None
 
 
 def primer_for(case, n):
@@ -151,6 +153,7 @@ def check_case(ctx, case, mode, primer=None):
     else:
         try:
             r2 = pickle.loads(pickle.dumps(r))
+            ctx.count("pickle_roundtrips_by_harness")
             r3 = copy.deepcopy(r)
             r4 = copy.copy(r)
             for rr in (r2, r3, r4):
@@ -165,7 +168,7 @@ def check_case(ctx, case, mode, primer=None):
                       {"kind": kind, "entry": entry, "spelling": spn, "stage": stage,
                        "tail": bool(tail)})
         return
-    if popped:
+    if popped or not _TAP_OK:
         ctx.nontrivial(kind, entry, spn, bi, tail, mode, primer)
         ctx.count("popped_ok")
     else:
@@ -200,8 +203,13 @@ def run_shard(ctx, desc):
 
 def no_zone_in(s):
     """Decided on the table read as data: after trimming, none of the table regexes matches."""
-    from dateparser.timezone_parser import _tz_offsets
-    from dateparser.date import sanitize_date
+    from ..gen.common import tz_table
+
+    _tz_offsets = tz_table()
+    try:
+        from dateparser.date import sanitize_date
+    except ImportError:     # renamed in the tree under test: the raw and stripped forms are still examined
+        sanitize_date = lambda x: x  # noqa
 
     for cand in (s, s.strip(), sanitize_date(s)):
         for name, info in _tz_offsets:
@@ -246,8 +254,8 @@ def finalize(merged, tier, seed):
         inc.append("zone popped and verified only %d times" % c.get("popped_ok", 0))
     if c.get("naive:checked", 0) < 500:
         inc.append("naive-by-default checked on only %d strings" % c.get("naive:checked", 0))
-    if c.get("anchor:timezone_parser.StaticTzInfo.__getinitargs__", 0) < 100:
-        inc.append("pickling hook (__getinitargs__) not exercised")
+    if c.get("pickle_roundtrips_by_harness", 0) < 500:
+        inc.append("only %d results were pickled and copied" % c.get("pickle_roundtrips_by_harness", 0))
     return {"inconclusive": inc, "anchors_hit": {k[7:]: v for k, v in c.items() if k.startswith("anchor:")}}
 
 
